@@ -12,6 +12,8 @@ use std::{
 struct Ledger {
     next: u64,
     live: Vec<u64>,
+    /// type each live value was created as
+    kinds: Vec<&'static str>,
     errors: Vec<String>,
 }
 
@@ -30,17 +32,19 @@ pub fn ledger_reset() {
         let mut l = l.borrow_mut();
         l.next = 1;
         l.live.clear();
+        l.kinds.clear();
         l.errors.clear();
     });
     ZST_LIVE.with(|z| z.set(0));
 }
 
-fn ledger_new() -> u64 {
+fn ledger_new(kind: &'static str) -> u64 {
     LEDGER.with(|l| {
         let mut l = l.borrow_mut();
         let id = l.next;
         l.next += 1;
         l.live.push(id);
+        l.kinds.push(kind);
         id
     })
 }
@@ -50,6 +54,10 @@ fn ledger_retire(id: u64, what: &str) {
         if let Ok(mut l) = l.try_borrow_mut() {
             if let Some(pos) = l.live.iter().position(|&x| x == id) {
                 l.live.swap_remove(pos);
+                let kind = l.kinds.swap_remove(pos);
+                if kind != what && l.errors.len() < 16 {
+                    l.errors.push(format!("value #{} created as {} dropped by the destructor of {}", id, kind, what));
+                }
             } else if l.errors.len() < 16 {
                 l.errors.push(format!("{} with id {} dropped although it is not live (double drop or invented value)", what, id));
             }
@@ -163,7 +171,7 @@ macro_rules! token {
         impl Elem for $name {
             const TRACKED: bool = true;
             fn make(val: u32) -> Self {
-                $name { id: ledger_new() as u32, val, $($extra: $einit,)* }
+                $name { id: ledger_new(stringify!($name)) as u32, val, $($extra: $einit,)* }
             }
             fn id(&self) -> u64 { self.id as u64 }
             fn val(&self) -> u32 { self.val }
@@ -326,7 +334,7 @@ macro_rules! mtoken {
             const TRACKED: bool = true;
             const STORES_VAL: bool = false;
             fn make(_val: u32) -> Self {
-                $name { id: (ledger_new() as u32).to_le_bytes(), $($extra: $einit,)* }
+                $name { id: (ledger_new(stringify!($name)) as u32).to_le_bytes(), $($extra: $einit,)* }
             }
             fn id(&self) -> u64 { u32::from_le_bytes(self.id) as u64 }
             fn val(&self) -> u32 { 0 }
